@@ -45,11 +45,11 @@ let rp_variant_of (s : string) : rp_variant =
   | "fixed" -> rp_fixed
   | "orig" -> rp_orig
   | _ ->
-      (* five letters y/n: bitidx shguard nooverwrite rbflag arm *)
-      if String.length s = 5 then
+      (* seven letters y/n: bitidx shguard nooverwrite rbflag arm resp_rb resp_nowrite *)
+      if String.length s = 7 then
         let b i = s.[i] = 'y' in
         { rp_v_bitidx = b 0; rp_v_shguard = b 1; rp_v_nooverwrite = b 2; rp_v_rbflag = b 3;
-          rp_v_arm = b 4 }
+          rp_v_arm = b 4; rp_v_resp_rb = b 5; rp_v_resp_nowrite = b 6 }
       else failwith "variant"
 
 let b01 b = if b then "1" else "0"
@@ -83,18 +83,26 @@ let rpu toks =
 
 let rp_msg_of (tok : string) : rp_msg =
   let seq = z_of_hex (String.sub tok 1 (String.length tok - 1)) in
+  let mk a e k = { rp_m_seq = seq; rp_m_auth = a; rp_m_echo = e; rp_m_kind = k } in
   match tok.[0] with
-  | 'g' -> { rp_m_seq = seq; rp_m_auth = RpGenuine; rp_m_echo = RpEchoNone }
-  | 'e' -> { rp_m_seq = seq; rp_m_auth = RpGenuine; rp_m_echo = RpEchoOk }
-  | 'x' -> { rp_m_seq = seq; rp_m_auth = RpGenuine; rp_m_echo = RpEchoBad }
-  | 'f' | 'F' | 'P' -> { rp_m_seq = seq; rp_m_auth = RpForged; rp_m_echo = RpEchoNone }
-  | 'K' | 'O' -> { rp_m_seq = seq; rp_m_auth = RpUnroutable; rp_m_echo = RpEchoNone }
+  | 'g' -> mk RpGenuine RpEchoNone RpRequest
+  | 'e' -> mk RpGenuine RpEchoOk RpRequest
+  | 'x' -> mk RpGenuine RpEchoBad RpRequest
+  | 'f' | 'F' | 'P' -> mk RpForged RpEchoNone RpRequest
+  | 'K' | 'O' -> mk RpUnroutable RpEchoNone RpRequest
+  (* responses with a Partial IV of their own: q = answer to an Observe registration,
+     N = notification, T = tampered notification, R = made-up response, Z = unknown token *)
+  | 'q' | 'N' -> mk RpGenuine RpEchoNone RpResponse
+  | 'T' | 'R' -> mk RpForged RpEchoNone RpResponse
+  (* Z: unknown token.  W: made-up response without a Partial IV - it is decrypted with the
+     request's nonce and never gets near the replay window: the same (no) effect *)
+  | 'Z' | 'W' -> mk RpUnroutable RpEchoNone RpResponse
   | _ -> failwith "msg kind"
 
 let verdict_letter (r : rp_verdict) : string =
   match r with
   | RpAccept -> "A" | RpRejReplay -> "R" | RpRejDecrypt -> "D" | RpRejChallenge -> "C"
-  | RpRejEchoBad -> "E" | RpRejUnroutable -> "N"
+  | RpRejEchoBad -> "E" | RpRejUnroutable -> "N" | RpAcceptUnchecked -> "U"
 
 let rpd toks =
   match toks with
@@ -131,6 +139,28 @@ let rps toks =
       if outs = [] then "-" else String.concat " " outs
   | _ -> failwith "rps args"
 
+(* endpoint that is client and server towards the same peer: requests and responses against
+   one recipient context; for a response only "handler ran" (A) / "did not" (X) is observable *)
+let rpx toks =
+  match toks with
+  | var :: wcfg :: b12 :: ops ->
+      let v = rp_variant_of var in
+      let w = window_of wcfg in
+      let b12 = b12 <> "0" in
+      let s = ref rp_init in
+      let outs = List.map (fun tok ->
+          let m = rp_msg_of tok in
+          let r, s1 = rp_recv v w b12 !s m in
+          s := s1;
+          let letter =
+            match m.rp_m_kind with
+            | RpRequest -> verdict_letter r
+            | RpResponse -> (match r with RpAccept | RpAcceptUnchecked -> "A" | _ -> "X") in
+          Printf.sprintf "%s,%s,%s,%s" letter (hex_of_z s1.rp_last) (hex_of_z s1.rp_win)
+            (b01 s1.rp_initial)) ops in
+      if outs = [] then "-" else String.concat " " outs
+  | _ -> failwith "rpx args"
+
 let sst toks =
   match toks with
   | freq :: start :: ops ->
@@ -151,4 +181,5 @@ let () =
   register "rpu" rpu;
   register "rpd" rpd;
   register "rps" rps;
+  register "rpx" rpx;
   register "sst" sst
